@@ -11,7 +11,7 @@ for f in sorted(glob.glob('/verif/seeded/*/meta.json')):
                  ', '.join(caught) or ('none (out of the properties\' input domain: ' + m['out_of_domain'][:120] + '...)' if m.get('out_of_domain') else '**none**'), ', '.join(c for c in tried if c not in caught), ev.get('repo_suite_with_change', '?'), ev.get('demo_with_change', '?')[:5]))
 out = ["# Independently seeded property-breaking changes", "",
        "Each directory holds `patch.diff` (the change, produced by a sub-agent that saw only the property text and a scratch worktree),",
-       "`seed_demo_test.go` (fails with the change, passes without) and `meta.json` (what it needs to manifest + our evaluation:",
+       "`seed_demo_test.go.txt` (a Go test for package astits: copy it to /repo/seed_demo_test.go; fails with the change, passes without) and `meta.json` (what it needs to manifest + our evaluation:",
        "repository suite still green, demonstration fails, which quick checks exit 1 with a VIOLATION line).", "",
        "Re-evaluate with `python3 tools/seed_eval.py eval <name> [checks]`.", "",
        "| property | seeded change | what was changed | needs to manifest | caught by | ran, not caught | repo suite |", "|---|---|---|---|---|---|---|"]
